@@ -83,6 +83,36 @@ def seed_shapes(ctx):
                             return
 
 
+
+def refused_then_again(ctx):
+    """the outcome of a KEK derivation depends on its arguments only: a request the seed envelope does not cover is refused EVERY time it is
+    made — also immediately after a successful derivation elsewhere and immediately after having been refused once — and covered requests
+    made before and after give the same KEK (real crypto, one process)"""
+    from props import c02
+    rng = ctx.rng
+    root, sd = bytes(range(4, 68)), b"\x01\x02\x03\x04"
+    hn = "SHA512"
+    spec = c02.SpecChain(lambda k, cc: c02.kbkdf_hmac("sha512", k, c02.LABEL, cc, 64), root, sd, 361)
+    (k1, k2) = spec.envelopes(9, 12)[0]
+    env = gen.make_env(l0=361, l1=9, l2=12, l1_key=k1, l2_key=k2, kdf_parameters=gen.kdf_params(hn))
+    ki = gen.rand_bytes(rng, 32)
+    def kek(r1, r2):
+        try:
+            return hx(env.get_kek(gen.make_kid(l0=361, l1=r1, l2=r2, flags=0, key_info=ki)))
+        except ValueError:
+            return "refused"
+        except Exception as e:  # noqa
+            return "raised " + canon_exc(e)
+    seq = [(9, 12), (9, 13), (9, 13), (5, 5), (10, 0), (10, 0), (9, 12), (5, 5), (9, 13)]
+    outs = [kek(*p) for p in seq]
+    want = [hx(refimpl.kek_nonce("sha512", spec.K2[p], ki)) if p <= (9, 12) else "refused" for p in seq]
+    ctx.count("refused_then_again", len(seq))
+    if outs != want:
+        i = next(j for j in range(len(seq)) if outs[j] != want[j])
+        ctx.violation("a KEK derivation gives a different outcome when repeated (a request the seed does not cover is not refused every time)",
+                      {"scenario": "refused_then_again", "envelope": [9, 12], "sequence": [list(p) for p in seq], "step": i}, outs[i][:64], want[i][:64])
+
+
 def run(ctx):
     import dpapi_ng._gkdi as g
     prelude.validate(ctx)
@@ -154,6 +184,7 @@ def run(ctx):
             ctx.violation("crypto API called with unexpected parameters", {"params": str(log.bad[0])}, "BADPARAM", "fixed parameters")
     ctx.compare_batch(cases, nontrivial=lambda line, impl: impl.startswith("ok"))
     seed_shapes(ctx)
+    refused_then_again(ctx)
 
     # ---- (b) real crypto: both sides and the independent implementation ----------------------------
     n_real = lead_real = 0
@@ -354,6 +385,12 @@ def search(ctx, broken, disagreements):
 def replay(ctx, payload):
     v = payload["violation"]["input"]
     print("recorded input:", v)
+    if v.get("scenario") == "refused_then_again":
+        c2 = type(ctx)(ctx.prop, "quick", ctx.seed)
+        refused_then_again(c2)
+        for x in c2.violations:
+            print(" ", x["what"], x["input"], x["observed"])
+        return not c2.violations
     if v.get("scenario") == "seed_shapes":
         c2 = type(ctx)(ctx.prop, "quick", ctx.seed)
         seed_shapes(c2)
